@@ -24,6 +24,9 @@ type addr4Case struct {
 	Nak   bool  `json:"nak"`
 	Bound bool  `json:"bound"`
 	Seed  int64 `json:"seed"`
+	// PadTo > 0: a last handler grows every reply to this many bytes of DHCP payload (several long options):
+	// link-level frames of MTU-14+1 .. MTU+14 bytes still fit the link and are still unicasts
+	PadTo int `json:"pad_to,omitempty"`
 }
 
 type addr4Engine struct{}
@@ -31,7 +34,7 @@ type addr4Engine struct{}
 func init() { register("addr4", addr4Engine{}) }
 
 func (addr4Engine) Gen(rng *rand.Rand, tier string, i int) any {
-	return &addr4Case{SetYi: i&1 != 0, Nak: i&2 != 0, Bound: i&4 != 0, Seed: rng.Int63()}
+	return &addr4Case{SetYi: i&1 != 0, Nak: i&2 != 0, Bound: i&4 != 0, Seed: rng.Int63(), PadTo: []int{0, 1459, 1472, 0, 1458, 1465, 1000, 1471}[(i/8)%8]}
 }
 
 func (addr4Engine) Decode(raw json.RawMessage) (any, error) {
@@ -84,6 +87,9 @@ func (addr4Engine) Run(ctx *fw.Ctx, cs any) {
 		job.V4 = append(job.V4, PlugConf{"syn", []string{"nak", "6"}})
 	}
 	job.V4 = append(job.V4, PlugConf{"syn", []string{"pass", "1"}})
+	if c.PadTo > 0 {
+		job.V4 = append(job.V4, PlugConf{"syn", []string{"padto", "2", fmt.Sprint(c.PadTo)}})
+	}
 	if c.Bound {
 		job.Iface = "ve0"
 	}
@@ -123,6 +129,9 @@ func (addr4Engine) Run(ctx *fw.Ctx, cs any) {
 	}
 	out := RunChain(job, ctx.Scratch, 3*time.Minute)
 	conf := fmt.Sprintf("setyi=%v nak=%v bound=%v", c.SetYi, c.Nak, c.Bound)
+	if c.PadTo > 0 {
+		conf += fmt.Sprintf(" replies padded to %d bytes (frame %d bytes, link MTU 1500)", c.PadTo, c.PadTo+42)
+	}
 	if out.SetupErr != "" || out.Died {
 		if out.Died {
 			d := ""
@@ -174,6 +183,9 @@ func (addr4Engine) Run(ctx *fw.Ctx, cs any) {
 		cell := fmt.Sprintf("giaddr=%s,ciaddr=%s,bflag=%v,nak=%v", row.gi, row.ci, row.bflag, c.Nak)
 		if l2 {
 			ctx.Count("addr4.rows.l2", 1)
+			if c.PadTo > 1458 {
+				ctx.Count("addr4.rows.l2_frame_longer_than_mtu_value", 1)
+			}
 			if len(r.Caps) != 0 {
 				ctx.Viol("C15", "l2-expected-got-udp:"+cell, "{%s}: the reply must be a link-level unicast to the client's hardware address; a UDP datagram to %s was sent instead", row.desc, r.Caps[0].Peer)
 				continue
